@@ -21,7 +21,7 @@ pub static SPEC: PropSpec = PropSpec {
     rule: "queries = (text, line, col, kind) with kind in {hover, dot, colon-colon}; texts: corpus files, prefixes cut at token boundaries, 1-3-edit token/char mutations, and templated programs with known types/members; positions: token boundaries, after every '.' and '::', one past line ends, past EOF, u32::MAX; a query is non-trivial when its text differs from every corpus file or it is an agreement query; distinct by hash of (text, position, kind)",
     eval_counter: "queries",
     assumptions: &[
-        "hover agreement is checked against the type written in an annotation (binder, later use, and an unannotated alias) and, for 24 expression positions (callee paths of UFCS / inherent / dot / generic calls, field names, constructors, literals, arguments), against the declared signature with Self and type parameters instantiated",
+        "hover agreement is checked against the type written in an annotation (binder, later use, and an unannotated alias) and, for 32 expression positions (callee paths of UFCS / inherent / dot / generic calls, field names, constructors, literals, arguments), against the declared signature with Self and type parameters instantiated",
         "completion soundness is judged against the member sets of the templated declarations; completeness is recorded, not required",
         "line/col use the line-index crate's convention (0-based line, UTF-8 byte column)",
     ],
@@ -313,6 +313,15 @@ const EXPR_PROBES: &[(&str, &str, &str)] = &[
     ("let e = @Some(1);", "Opt[int32]", "generic constructor"),
     ("let e = (1, @\"lit\");", "string", "literal"),
     ("let e = inc(@3);", "int32", "literal argument"),
+    // types that are only fixed by a later use
+    ("let @lva = vec_new(); let lvb = vec_push(lva, 3);", "Vec[int32]", "binder whose type a later use fixes"),
+    ("let lvc = @vec_new(); let lvd = vec_push(lvc, \"s\");", "() -> Vec[string]", "builtin call whose type a later use fixes"),
+    ("let @loa = None; let lob = if true { loa } else { Some(1) };", "Opt[int32]", "binder whose type a later use fixes"),
+    ("let loc = @None; let lod = if true { loc } else { Some(true) };", "Opt[bool]", "constructor whose type a later use fixes"),
+    ("let @lra = ref(None); let lrb = ref_set(lra, Some(2));", "Ref[Opt[int32]]", "binder whose type a later use fixes"),
+    ("let @looa = Some(None); let loob = match looa { Some(Some(z)) => z + 1, _ => 0 };", "Opt[Opt[int32]]", "binder whose type a later match fixes"),
+    ("let looc = Some(@None); let lood = match looc { Some(Some(z)) => z + 1, _ => 0 };", "Opt[int32]", "nested constructor whose type a later match fixes"),
+    ("let lq: Vec[int32] = @vec_new();", "() -> Vec[int32]", "builtin call under an annotation"),
 ];
 
 fn agreement_hover_exprs(case: &mut Case, rng: &mut Rng) {
